@@ -253,6 +253,51 @@ pub fn with_low<R>(b: &Built, f: &mut dyn FnMut(&dyn DynAut) -> R) -> Option<R> 
     }
 }
 
+/// the search routine printed in the documentation of the `Automaton` trait (unanchored, whole
+/// haystack), written against the object-safe view
+pub fn recipe_find(a: &dyn DynAut, haystack: &[u8]) -> Result<Option<M>, String> {
+    let mut sid = a.start_state(false)?;
+    let mut at = 0usize;
+    let mut mat = None;
+    let standard = a.match_kind() == MatchKind::Standard;
+    let get_match = |sid: u32, at: usize| {
+        let pid = a.match_pattern(sid, 0);
+        let len = a.pattern_len(pid);
+        M { pid, start: at - len, end: at }
+    };
+    if a.is_match(sid) {
+        mat = Some(get_match(sid, at));
+        if standard {
+            return Ok(mat);
+        }
+    }
+    while at < haystack.len() {
+        sid = a.next_state(false, sid, haystack[at]);
+        if a.is_special(sid) {
+            if a.is_dead(sid) {
+                return Ok(mat);
+            } else if a.is_match(sid) {
+                mat = Some(get_match(sid, at + 1));
+                if standard {
+                    return Ok(mat);
+                }
+            }
+        }
+        at += 1;
+    }
+    Ok(mat)
+}
+
+/// the same automaton seen directly and through the forwarding `impl Automaton for &A`
+pub fn with_low_pair<R>(b: &Built, f: &mut dyn FnMut(&dyn DynAut, &dyn DynAut) -> R) -> Option<R> {
+    match b {
+        Built::Top(_) => None,
+        Built::NC(a) => Some(f(a, &a)),
+        Built::C(a) => Some(f(a, &a)),
+        Built::D(a) => Some(f(a, &a)),
+    }
+}
+
 /// object-safe view of the low-level Automaton API
 pub trait DynAut {
     fn start_state(&self, anchored: bool) -> Result<u32, String>;
